@@ -4,6 +4,8 @@ the refinement memWrite ⊑ specWrite, the SQL transaction model.
 -/
 import OpenFGAVerif.Model.StoreWrite
 
+set_option linter.unusedSimpArgs false
+
 namespace OpenFGAVerif.Proofs.StoreWrite
 open OpenFGAVerif.Model.StoreTypes OpenFGAVerif.Model.StoreWrite
 
@@ -86,11 +88,11 @@ theorem sanitizeDeletes_mem (recs : List TupleRec) (o : WriteOpts) :
         have : j - i = (j - (i + 1)) + 1 := by omega
         rw [this]; simpa using h2
 
-theorem sanitizeWrites_err (recs : List TupleRec) (o : WriteOpts) :
+theorem sanitizeWrites_err (ceq : TupleRec → TupleRec → Bool) (recs : List TupleRec) (o : WriteOpts) :
     ∀ (ws : List TupleRec) (i : Nat) (acc : List Nat),
-      errOf (sanitizeWrites recs o i ws acc) =
+      errOf (sanitizeWrites ceq recs o i ws acc) =
         if !o.ignoreDup && ws.any (fun w => (find recs w.key).isSome) then some .invalidWrite
-        else if ws.any (fun w => (find recs w.key).any (fun r => !condEq r w)) then some .condConflict
+        else if ws.any (fun w => (find recs w.key).any (fun r => !ceq r w)) then some .condConflict
         else none := by
   intro ws
   induction ws with
@@ -102,7 +104,7 @@ theorem sanitizeWrites_err (recs : List TupleRec) (o : WriteOpts) :
     | none => simp [ih, hf]
     | some r =>
       by_cases ho : o.ignoreDup = true
-      · by_cases hc : condEq r w = true
+      · by_cases hc : ceq r w = true
         · simp [ho, hc, ih, hf]
         · simp [ho, hc, errOf, hf]
       · simp [ho, errOf, hf]
@@ -225,18 +227,18 @@ theorem stored_isSome_iff (s : StoreState) (k : TupleKey) : (stored s k).isSome 
   unfold stored
   rw [Bool.eq_iff_iff, List.find?_isSome, List.any_eq_true]
 
-theorem memWrite_eq_spec (s : StoreState) (dels : List TupleKey) (writes : List TupleRec) (o : WriteOpts) (now : Nat)
+theorem memWrite_eq_spec (ceq : TupleRec → TupleRec → Bool) (s : StoreState) (dels : List TupleKey) (writes : List TupleRec) (o : WriteOpts) (now : Nat)
     (h : ReqOK dels writes) :
-    memWrite s dels writes o now = toResult s (specWrite condEq false id s dels writes o now) := by
+    memWrite ceq s dels writes o now = toResult s (specWrite ceq false id s dels writes o now) := by
   obtain ⟨wfD, wfW, nodup⟩ := h
   have hD := sanitizeDeletes_err s.tuples o dels 0 []
-  have hW := sanitizeWrites_err s.tuples o writes 0 []
+  have hW := sanitizeWrites_err ceq s.tuples o writes 0 []
   have e1 : dels.any (fun k => (find s.tuples k).isNone) = dels.any (fun k => (stored s k).isNone) :=
     any_congr_mem (fun k hk => by rw [stored_eq_find s (wfD k hk)])
   have e2 : writes.any (fun w => (find s.tuples w.key).isSome) = writes.any (fun w => (stored s w.key).isSome) :=
     any_congr_mem (fun w hw => by rw [stored_eq_find s (wfW w hw)])
-  have e3 : writes.any (fun w => (find s.tuples w.key).any (fun r => !condEq r w))
-          = writes.any (fun w => (stored s w.key).any (fun r => !condEq r w)) :=
+  have e3 : writes.any (fun w => (find s.tuples w.key).any (fun r => !ceq r w))
+          = writes.any (fun w => (stored s w.key).any (fun r => !ceq r w)) :=
     any_congr_mem (fun w hw => by rw [stored_eq_find s (wfW w hw)])
   rw [e1] at hD
   rw [e2, e3] at hW
@@ -255,7 +257,7 @@ theorem memWrite_eq_spec (s : StoreState) (dels : List TupleKey) (writes : List 
       split at hD
       · cases hD
       · rename_i hc; simpa using hc
-    cases hw : sanitizeWrites s.tuples o 0 writes [] with
+    cases hw : sanitizeWrites ceq s.tuples o 0 writes [] with
     | error e =>
       rw [hw] at hW
       simp only [errOf] at hW
@@ -274,7 +276,7 @@ theorem memWrite_eq_spec (s : StoreState) (dels : List TupleKey) (writes : List 
         split at hW
         · cases hW
         · rename_i hc; simpa using hc
-      have hc3 : writes.any (fun w => (stored s w.key).any (fun r => !condEq r w)) = false := by
+      have hc3 : writes.any (fun w => (stored s w.key).any (fun r => !ceq r w)) = false := by
         split at hW
         · cases hW
         · split at hW
@@ -385,13 +387,13 @@ theorem runStmts_atomic (cfg : SqlCfg) (hc : CfgOK cfg) (now : Nat) (f : Option 
 /-- `sqlite.write` is all-or-nothing for every failure point: if the call returns an error — its own validation
     error, a statement that fails (before or after it ran), a connection that dies, a failed COMMIT — the committed
     state is exactly what it was; and no transaction is left open. -/
-theorem sqlWrite_atomic (cfg : SqlCfg) (hc : CfgOK cfg) (db : Db) (dels : List TupleKey) (writes : List TupleRec)
+theorem sqlWrite_atomic (ceq : TupleRec → TupleRec → Bool) (cfg : SqlCfg) (hc : CfgOK cfg) (db : Db) (dels : List TupleKey) (writes : List TupleRec)
     (o : WriteOpts) (now : Nat) (f : Option Fail) (hp : db.pending = none) :
-    (sqlWrite cfg db dels writes o now f).1.pending = none ∧
-    ((sqlWrite cfg db dels writes o now f).2 ≠ none →
-      (sqlWrite cfg db dels writes o now f).1.committed = db.committed) := by
+    (sqlWrite ceq cfg db dels writes o now f).1.pending = none ∧
+    ((sqlWrite ceq cfg db dels writes o now f).2 ≠ none →
+      (sqlWrite ceq cfg db dels writes o now f).1.committed = db.committed) := by
   have hrb := hc.rb
-  generalize hr : sqlWrite cfg db dels writes o now f = r
+  generalize hr : sqlWrite ceq cfg db dels writes o now f = r
   unfold sqlWrite at hr
   by_cases h0 : firesAt f 0 = true
   · rw [if_pos h0] at hr; subst hr; simp [hp]
@@ -407,7 +409,7 @@ theorem sqlWrite_atomic (cfg : SqlCfg) (hc : CfgOK cfg) (db : Db) (dels : List T
   | error e => rw [hd] at hr; subst hr; simp [txRollback, hrb]
   | ok delKeys =>
     rw [hd] at hr
-    cases hw : sqlPlanWrites (db.committed.tuples.filter (fun t => (dels ++ writes.map (·.key)).eraseDups.contains t.key)) o writes [] with
+    cases hw : sqlPlanWrites ceq (db.committed.tuples.filter (fun t => (dels ++ writes.map (·.key)).eraseDups.contains t.key)) o writes [] with
     | error e => rw [hw] at hr; subst hr; simp [txRollback, hrb]
     | ok rows =>
       rw [hw] at hr
@@ -415,5 +417,342 @@ theorem sqlWrite_atomic (cfg : SqlCfg) (hc : CfgOK cfg) (db : Db) (dels : List T
       subst hr
       have := runStmts_atomic cfg hc now f (sqlStmts delKeys rows) { committed := db.committed, pending := some db.committed } 2
       simpa using this
+
+
+/-! ### `sqlite.write` without failure publishes exactly the specified state -/
+
+theorem sqlPlanDeletes_eq (E : List TupleRec) (o : WriteOpts) :
+    ∀ (ks acc : List TupleKey), sqlPlanDeletes E o ks acc =
+      if !o.ignoreMissing && ks.any (fun k => !E.any (fun t => t.key == k)) then .error .invalidDelete
+      else .ok (acc ++ ks.filter (fun k => E.any (fun t => t.key == k))) := by
+  intro ks
+  induction ks with
+  | nil => intro acc; simp [sqlPlanDeletes]
+  | cons k ks ih =>
+    intro acc
+    simp only [sqlPlanDeletes]
+    by_cases hk : E.any (fun t => t.key == k) = true
+    · simp only [hk, if_true, ih]
+      by_cases hc : (!o.ignoreMissing && ks.any (fun k => !E.any (fun t => t.key == k))) = true
+      · simp [hc, hk]
+      · simp [hc, hk, List.filter_cons]
+    · have hk' : E.any (fun t => t.key == k) = false := by simpa using hk
+      by_cases ho : o.ignoreMissing = true
+      · simp [hk', ho, ih, List.filter_cons]
+      · simp [hk', ho]
+
+theorem sqlPlanWrites_eq (ceq : TupleRec → TupleRec → Bool) (E : List TupleRec) (o : WriteOpts) :
+    ∀ (ws acc : List TupleRec), sqlPlanWrites ceq E o ws acc =
+      if !o.ignoreDup && ws.any (fun w => (E.find? (fun t => t.key == w.key)).isSome) then .error .invalidWrite
+      else if ws.any (fun w => (E.find? (fun t => t.key == w.key)).any (fun e => !ceq e w)) then .error .condConflict
+      else .ok (acc ++ ws.filter (fun w => (E.find? (fun t => t.key == w.key)).isNone)) := by
+  intro ws
+  induction ws with
+  | nil => intro acc; simp [sqlPlanWrites]
+  | cons w ws ih =>
+    intro acc
+    simp only [sqlPlanWrites]
+    cases hf : E.find? (fun t => t.key == w.key) with
+    | none =>
+      simp only [ih]
+      by_cases h1 : (!o.ignoreDup && ws.any (fun w => (E.find? (fun t => t.key == w.key)).isSome)) = true
+      · simp [h1, hf]
+      · by_cases h2 : ws.any (fun w => (E.find? (fun t => t.key == w.key)).any (fun e => !ceq e w)) = true
+        · simp [h1, h2, hf]
+        · simp [h1, h2, hf, List.filter_cons]
+    | some e =>
+      by_cases ho : o.ignoreDup = true
+      · by_cases hc : ceq e w = true
+        · simp only [ho, hc, if_true, ih]
+          by_cases h1 : (!o.ignoreDup && ws.any (fun w => (E.find? (fun t => t.key == w.key)).isSome)) = true
+          · simp [ho] at h1
+          · by_cases h2 : ws.any (fun w => (E.find? (fun t => t.key == w.key)).any (fun e => !ceq e w)) = true
+            · simp [ho, h2, hf, hc]
+            · simp [ho, h2, hf, hc, List.filter_cons]
+        · simp [ho, hc, hf]
+      · simp [ho, hf]
+
+theorem length_sub_filter_not {α} (p : α → Bool) (l : List α) :
+    l.length - (l.filter (fun a => !p a)).length = (l.filter p).length := by
+  induction l with
+  | nil => rfl
+  | cons a l ih =>
+    have := List.length_filter_le (fun a => !p a) l
+    cases hp : p a <;> simp [List.filter_cons, hp] <;> omega
+
+theorem eraseDups_of_nodup {α} [BEq α] [LawfulBEq α] : ∀ (l : List α), l.Nodup → l.eraseDups = l := by
+  intro l
+  induction l with
+  | nil => intro _; simp
+  | cons a l ih =>
+    intro h
+    rw [List.nodup_cons] at h
+    rw [List.eraseDups_cons]
+    have : l.filter (fun b => !b == a) = l := by
+      rw [List.filter_eq_self]
+      intro b hb
+      have : b ≠ a := fun e => h.1 (e ▸ hb)
+      simp [this]
+    rw [this, ih h.2]
+
+/-- a duplicate-free key list whose keys are all stored selects exactly that many rows -/
+theorem filter_keys_length {ts : List TupleRec} {K : List TupleKey} (hts : (ts.map (·.key)).Nodup) (hK : K.Nodup)
+    (hsub : ∀ k ∈ K, ∃ t ∈ ts, t.key = k) :
+    (ts.filter (fun t => K.contains t.key)).length = K.length := by
+  have hL : ((ts.filter (fun t => K.contains t.key)).map (·.key)).Nodup :=
+    List.Nodup.sublist (List.Sublist.map _ List.filter_sublist) hts
+  have hperm : ((ts.filter (fun t => K.contains t.key)).map (·.key)).Perm K := by
+    rw [List.perm_ext_iff_of_nodup hL hK]
+    intro a
+    simp only [List.mem_map, List.mem_filter, List.contains_iff_mem]
+    constructor
+    · rintro ⟨t, ⟨_, h2⟩, rfl⟩; exact h2
+    · intro ha
+      obtain ⟨t, ht, hk⟩ := hsub a ha
+      exact ⟨t, ⟨ht, hk ▸ ha⟩, hk⟩
+  have := hperm.length_eq
+  simpa using this
+
+theorem normCond_key (t : TupleRec) : (normCond t).key = t.key := by
+  unfold normCond
+  split
+  · rfl
+  · split <;> rfl
+
+theorem redact_eq_keyRec (t : TupleRec) : t.redact = keyRec t.key := by
+  cases t; rfl
+
+theorem stored_some_key {s : StoreState} {k : TupleKey} {t : TupleRec} (h : stored s k = some t) :
+    t ∈ s.tuples ∧ t.key = k := by
+  unfold stored at h
+  have h1 := List.mem_of_find?_eq_some h
+  have h2 := List.find?_some h
+  exact ⟨h1, by simpa using h2⟩
+
+theorem effDel_reqOrder (s : StoreState) (dels : List TupleKey) :
+    (dels.filterMap (fun k => stored s k)).map (fun t => (t.redact, Op.delete))
+      = (dels.filter (fun k => (stored s k).isSome)).map (fun k => (keyRec k, Op.delete)) := by
+  induction dels with
+  | nil => rfl
+  | cons k ks ih =>
+    cases h : stored s k with
+    | none => simp [List.filterMap_cons, List.filter_cons, h, ih]
+    | some t =>
+      have hk := (stored_some_key h).2
+      have hsome : (fun k => stored s k) k = some t := h
+      rw [List.filterMap_cons_some hsome, List.filter_cons_of_pos (by simp [h]), List.map_cons, List.map_cons, ih,
+        redact_eq_keyRec, hk]
+
+/-- one data statement that the engine accepts moves the transaction's working copy forward -/
+theorem runStmts_ok_step (cfg : SqlCfg) (hc : CfgOK cfg) (now : Nat) (c tx : StoreState) (st : Stmt) (rest : List Stmt) (i : Nat)
+    (tx' : StoreState) (hnc : st ≠ .commit) (h : execStmt now tx st = .ok tx') :
+    runStmts cfg now none { committed := c, pending := some tx } (st :: rest) i
+      = runStmts cfg now none { committed := c, pending := some tx' } rest (i + 1) := by
+  obtain ⟨hdel, hins, hlog, hrb⟩ := hc
+  cases st with
+  | commit => exact absurd rfl hnc
+  | deleteTuples keys => simp [runStmts, Stmt.inTxn, hdel, h, Except.map]
+  | insertTuples rows => simp [runStmts, Stmt.inTxn, hins, h, Except.map]
+  | insertChangelog rows => simp [runStmts, Stmt.inTxn, hlog, h, Except.map]
+
+theorem runStmts_commit (cfg : SqlCfg) (now : Nat) (c tx : StoreState) (rest : List Stmt) (i : Nat) :
+    runStmts cfg now none { committed := c, pending := some tx } (.commit :: rest) i
+      = ({ committed := tx, pending := none }, none) := by
+  simp [runStmts]
+
+theorem exec_delete_ok (now : Nat) (tx : StoreState) (D : List TupleKey)
+    (h : (tx.tuples.filter (fun t => D.contains t.key)).length = D.length) :
+    execStmt now tx (.deleteTuples D) = .ok { tx with tuples := tx.tuples.filter (fun t => !D.contains t.key) } := by
+  have := length_sub_filter_not (fun t : TupleRec => D.contains t.key) tx.tuples
+  simp only [execStmt]
+  rw [this, h]
+  simp
+
+theorem exec_insert_ok (now : Nat) (tx : StoreState) (rows : List TupleRec)
+    (h1 : ∀ r ∈ rows, ∀ t ∈ tx.tuples, t.key ≠ r.key) (h2 : (rows.map (·.key)).Nodup) :
+    execStmt now tx (.insertTuples rows) = .ok { tx with tuples := tx.tuples ++ rows } := by
+  simp only [execStmt]
+  have e1 : rows.any (fun r => tx.tuples.any (fun t => t.key == r.key)) = false := by
+    rw [List.any_eq_false]
+    intro r hr
+    rw [Bool.not_eq_true, List.any_eq_false]
+    intro t ht
+    simpa using h1 r hr t ht
+  rw [e1, eraseDups_of_nodup _ h2]
+  simp
+
+theorem runStmts_sqlStmts (cfg : SqlCfg) (hc : CfgOK cfg) (now : Nat) (s : StoreState) (D : List TupleKey) (R : List TupleRec)
+    (hD : (s.tuples.filter (fun t => D.contains t.key)).length = D.length)
+    (hR1 : ∀ r ∈ R, ∀ t ∈ s.tuples, D.contains t.key = false → t.key ≠ r.key)
+    (hR2 : (R.map (·.key)).Nodup) :
+    runStmts cfg now none { committed := s, pending := some s } (sqlStmts D R) 2 =
+      ({ committed := { tuples := s.tuples.filter (fun t => !D.contains t.key) ++ R.map normCond,
+                        changes := pushAll s.changes (D.map (fun k => (keyRec k, Op.delete)) ++ R.map (fun w => (normCond w, Op.write))) now },
+         pending := none }, none) := by
+  have hins : ∀ r ∈ R.map normCond, ∀ t ∈ s.tuples.filter (fun t => !D.contains t.key), t.key ≠ r.key := by
+    intro r hr t ht
+    obtain ⟨r0, hr0, rfl⟩ := List.mem_map.mp hr
+    rw [normCond_key]
+    have := List.mem_filter.mp ht
+    exact hR1 r0 hr0 t this.1 (by simpa using this.2)
+  have hnd' : ((R.map normCond).map (·.key)).Nodup := by
+    have : (R.map normCond).map (·.key) = R.map (·.key) := by
+      rw [List.map_map]; apply List.map_congr_left; intro a _; exact normCond_key a
+    rw [this]; exact hR2
+  unfold sqlStmts
+  by_cases hDe : D = []
+  · subst hDe
+    by_cases hRe : R = []
+    · subst hRe
+      have hft : s.tuples.filter (fun _ => true) = s.tuples := List.filter_eq_self.mpr (fun _ _ => rfl)
+      simp [runStmts_commit, pushAll, hft]
+    · have hRe' : R.isEmpty = false := by simpa using hRe
+      have hft : s.tuples.filter (fun _ => true) = s.tuples := List.filter_eq_self.mpr (fun _ _ => rfl)
+      simp only [List.isEmpty_nil, hRe', if_true, Bool.true_and, List.nil_append, List.cons_append, Bool.false_eq_true, if_false]
+      have hins0 : ∀ r ∈ R.map normCond, ∀ t ∈ s.tuples, t.key ≠ r.key := by
+        intro r hr t ht
+        exact hins r hr t (by simp [ht])
+      rw [runStmts_ok_step cfg hc now _ _ _ _ _ _ (by simp) (exec_insert_ok now s _ hins0 hnd')]
+      rw [runStmts_ok_step cfg hc now _ _ _ _ _ { tuples := s.tuples ++ R.map normCond, changes := pushAll s.changes (R.map (fun w => (normCond w, Op.write))) now } (by simp) (by simp [execStmt])]
+      rw [runStmts_commit]
+      simp [hft]
+  · have hDe' : D.isEmpty = false := by simpa using hDe
+    by_cases hRe : R = []
+    · subst hRe
+      simp only [hDe', List.isEmpty_nil, if_true, Bool.false_and, Bool.false_eq_true, if_false, List.nil_append, List.cons_append, List.append_nil, List.map_nil]
+      rw [runStmts_ok_step cfg hc now _ _ _ _ _ _ (by simp) (exec_delete_ok now s D hD)]
+      rw [runStmts_ok_step cfg hc now _ _ _ _ _ { tuples := s.tuples.filter (fun t => !D.contains t.key), changes := pushAll s.changes (D.map (fun k => (keyRec k, Op.delete))) now } (by simp) (by simp [execStmt])]
+      rw [runStmts_commit]
+    · have hRe' : R.isEmpty = false := by simpa using hRe
+      simp only [hDe', hRe', Bool.false_and, Bool.false_eq_true, if_false, List.nil_append, List.cons_append]
+      rw [runStmts_ok_step cfg hc now _ _ _ _ _ _ (by simp) (exec_delete_ok now s D hD)]
+      rw [runStmts_ok_step cfg hc now _ _ _ _ _ _ (by simp) (exec_insert_ok now _ _ hins hnd')]
+      rw [runStmts_ok_step cfg hc now _ _ _ _ _ { tuples := s.tuples.filter (fun t => !D.contains t.key) ++ R.map normCond, changes := pushAll s.changes (D.map (fun k => (keyRec k, Op.delete)) ++ R.map (fun w => (normCond w, Op.write))) now } (by simp) (by simp [execStmt])]
+      rw [runStmts_commit]
+
+
+/-- what a finished SQL write looks like from outside -/
+def toDbResult (db : Db) : Except WriteErr StoreState → Db × Option WriteErr
+  | .error e => ({ committed := db.committed, pending := none }, some e)
+  | .ok s' => ({ committed := s', pending := none }, none)
+
+theorem eraseDups_isEmpty {α} [BEq α] [LawfulBEq α] (l : List α) : l.eraseDups.isEmpty = l.isEmpty := by
+  cases l with
+  | nil => simp
+  | cons a l => simp [List.eraseDups_cons]
+
+/-- `sqlite.write` that meets no failure: either its own validation error with nothing changed, or COMMIT of exactly
+    the specified state (deletes in request order).  Needs: no key twice in the request (command layer), no key
+    twice in the table (UNIQUE key; invariant `specWrite_nodup`). -/
+theorem sqlWrite_eq_spec (ceq : TupleRec → TupleRec → Bool) (cfg : SqlCfg) (hc : CfgOK cfg) (db : Db)
+    (dels : List TupleKey) (writes : List TupleRec) (o : WriteOpts) (now : Nat)
+    (hnd : (dels ++ writes.map (·.key)).Nodup) (hst : (db.committed.tuples.map (·.key)).Nodup) :
+    sqlWrite ceq cfg db dels writes o now none
+      = toDbResult db (specWrite ceq true normCond db.committed dels writes o now) := by
+  have hrb := hc.rb
+  unfold sqlWrite
+  simp only [firesAt, Bool.false_eq_true, if_false]
+  rw [eraseDups_isEmpty]
+  by_cases hk : (dels ++ writes.map (·.key)).isEmpty = true
+  · rw [if_pos hk]
+    have hk' := List.isEmpty_iff.mp hk
+    obtain ⟨hd0, hw0⟩ := List.append_eq_nil_iff.mp hk'
+    have hw0' : writes = [] := List.map_eq_nil_iff.mp hw0
+    subst hd0; subst hw0'
+    have hft : db.committed.tuples.filter (fun _ => true) = db.committed.tuples := List.filter_eq_self.mpr (fun _ _ => rfl)
+    simp [specWrite, toDbResult, txRollback, hrb, pushAll, hft]
+  rw [if_neg hk]
+  -- what the SELECT returns, seen through the request's keys
+  have hmemK : ∀ k, k ∈ dels ++ writes.map (·.key) → (dels ++ writes.map (·.key)).eraseDups.contains k = true := by
+    intro k hk; rw [List.contains_iff_mem, List.mem_eraseDups]; exact hk
+  have hany : ∀ k, k ∈ dels ++ writes.map (·.key) →
+      (db.committed.tuples.filter (fun t => (dels ++ writes.map (·.key)).eraseDups.contains t.key)).any (fun t => t.key == k)
+        = (stored db.committed k).isSome := by
+    intro k hk
+    rw [stored_isSome_iff, List.any_filter]
+    apply any_congr_mem
+    intro t _
+    by_cases h : t.key = k
+    · simp [h]
+      simpa using hk
+    · simp [h]
+  have hfind : ∀ k, k ∈ dels ++ writes.map (·.key) →
+      (db.committed.tuples.filter (fun t => (dels ++ writes.map (·.key)).eraseDups.contains t.key)).find? (fun t => t.key == k)
+        = stored db.committed k := by
+    intro k hk
+    rw [List.find?_filter]
+    unfold stored
+    congr 1
+    funext t
+    by_cases h : t.key = k
+    · simp [h]
+      simpa using hk
+    · simp [h]
+  have hmd : ∀ k ∈ dels, k ∈ dels ++ writes.map (·.key) := fun k hk => List.mem_append_left _ hk
+  have hmw : ∀ w ∈ writes, w.key ∈ dels ++ writes.map (·.key) :=
+    fun w hw => List.mem_append_right _ (List.mem_map.mpr ⟨w, hw, rfl⟩)
+  rw [sqlPlanDeletes_eq, sqlPlanWrites_eq]
+  have e1 : dels.any (fun k => !(db.committed.tuples.filter (fun t => (dels ++ writes.map (·.key)).eraseDups.contains t.key)).any (fun t => t.key == k))
+          = dels.any (fun k => (stored db.committed k).isNone) :=
+    any_congr_mem (fun k hk => by rw [hany k (hmd k hk)]; cases stored db.committed k <;> rfl)
+  have e2 : writes.any (fun w => ((db.committed.tuples.filter (fun t => (dels ++ writes.map (·.key)).eraseDups.contains t.key)).find? (fun t => t.key == w.key)).isSome)
+          = writes.any (fun w => (stored db.committed w.key).isSome) :=
+    any_congr_mem (fun w hw => by rw [hfind _ (hmw w hw)])
+  have e3 : writes.any (fun w => ((db.committed.tuples.filter (fun t => (dels ++ writes.map (·.key)).eraseDups.contains t.key)).find? (fun t => t.key == w.key)).any (fun e => !ceq e w))
+          = writes.any (fun w => (stored db.committed w.key).any (fun e => !ceq e w)) :=
+    any_congr_mem (fun w hw => by rw [hfind _ (hmw w hw)])
+  have e4 : dels.filter (fun k => (db.committed.tuples.filter (fun t => (dels ++ writes.map (·.key)).eraseDups.contains t.key)).any (fun t => t.key == k))
+          = dels.filter (fun k => (stored db.committed k).isSome) :=
+    List.filter_congr (fun k hk => hany k (hmd k hk))
+  have e5 : writes.filter (fun w => ((db.committed.tuples.filter (fun t => (dels ++ writes.map (·.key)).eraseDups.contains t.key)).find? (fun t => t.key == w.key)).isNone)
+          = writes.filter (fun w => (stored db.committed w.key).isNone) :=
+    List.filter_congr (fun w hw => by rw [hfind _ (hmw w hw)])
+  rw [e1, e2, e3, e4, e5]
+  unfold specWrite
+  by_cases c1 : (!o.ignoreMissing && dels.any (fun k => (stored db.committed k).isNone)) = true
+  · simp [c1, toDbResult, txRollback, hrb]
+  rw [if_neg c1, if_neg c1]
+  by_cases c2 : (!o.ignoreDup && writes.any (fun w => (stored db.committed w.key).isSome)) = true
+  · simp [c2, toDbResult, txRollback, hrb]
+  rw [if_neg c2, if_neg c2]
+  by_cases c3 : writes.any (fun w => (stored db.committed w.key).any (fun e => !ceq e w)) = true
+  · simp [c3, toDbResult, txRollback, hrb]
+  rw [if_neg c3, if_neg c3]
+  simp only [List.nil_append, if_true, toDbResult]
+  -- the statements
+  have hnd' := List.nodup_append.mp hnd
+  have hDnd : (dels.filter (fun k => (stored db.committed k).isSome)).Nodup :=
+    List.Nodup.sublist List.filter_sublist hnd'.1
+  have hDsub : ∀ k ∈ dels.filter (fun k => (stored db.committed k).isSome), ∃ t ∈ db.committed.tuples, t.key = k := by
+    intro k hk
+    have := (List.mem_filter.mp hk).2
+    cases h : stored db.committed k with
+    | none => simp [h] at this
+    | some t => exact ⟨t, stored_some_key h⟩
+  have hD := filter_keys_length hst hDnd hDsub
+  have hkept : ∀ t ∈ db.committed.tuples,
+      (dels.filter (fun k => (stored db.committed k).isSome)).contains t.key = dels.contains t.key := by
+    intro t ht
+    rw [Bool.eq_iff_iff, List.contains_iff_mem, List.contains_iff_mem, List.mem_filter]
+    constructor
+    · exact fun h => h.1
+    · intro h
+      refine ⟨h, ?_⟩
+      rw [stored_isSome_iff, List.any_eq_true]
+      exact ⟨t, ht, by simp⟩
+  have hR1 : ∀ r ∈ writes.filter (fun w => (stored db.committed w.key).isNone), ∀ t ∈ db.committed.tuples,
+      (dels.filter (fun k => (stored db.committed k).isSome)).contains t.key = false → t.key ≠ r.key := by
+    intro r hr t ht _ heq
+    have := (List.mem_filter.mp hr).2
+    have h2 : (stored db.committed r.key).isSome = true := by
+      rw [stored_isSome_iff, List.any_eq_true]; exact ⟨t, ht, by simp [heq]⟩
+    cases h : stored db.committed r.key <;> simp [h] at this h2
+  have hR2 : ((writes.filter (fun w => (stored db.committed w.key).isNone)).map (·.key)).Nodup :=
+    List.Nodup.sublist (List.Sublist.map _ List.filter_sublist) hnd'.2.1
+  rw [runStmts_sqlStmts cfg hc now db.committed _ _ hD hR1 hR2]
+  have hf1 : db.committed.tuples.filter (fun t => !(dels.filter (fun k => (stored db.committed k).isSome)).contains t.key)
+           = db.committed.tuples.filter (fun t => !dels.contains t.key) :=
+    List.filter_congr (fun t ht => by rw [hkept t ht])
+  rw [hf1, effDel_reqOrder]
 
 end OpenFGAVerif.Proofs.StoreWrite
